@@ -52,6 +52,26 @@ def fieldwise (defaults : Attrs) (fieldNames : List String) (a b : Inst) : Bool 
   (fieldNames ++ a.attrs.map (·.1) ++ b.attrs.map (·.1)).all
     (fun k => PyVal.pyEq (getA defaults a k) (getA defaults b k))
 
+/-- CPython's set iteration order after a rebuild, as observed on the real copy -/
+def setOrderOfJson (j : Json) (k : String) : Except String SetOrder := do
+  let table : List (String × List PyVal) ← match optField j k with
+    | none => pure []
+    | some x => (← x.getArr?).toList.mapM fun t => do
+      let a ← t.getArr?
+      let inp ← (← a[0]!.getArr?).toList.mapM valOfJson
+      let out ← (← a[1]!.getArr?).toList.mapM valOfJson
+      pure (valKey (.list inp), out)
+  pure fun xs => match table.find? (fun t => t.1 == valKey (.list xs)) with
+    | some t => t.2 | none => xs
+
+/-- field names of every Structure class occurring in a declaration -/
+partial def classTbl : FieldDecl → ClassTbl
+  | .struct c fields _ => (c.name, fields.map (·.1)) :: fields.flatMap (fun f => classTbl f.2)
+  | .seqOf _ i _ | .setOf _ i _ | .tupleOf i _ => classTbl i
+  | .seqPos _ is _ _ | .tuplePos is _ | .anyOf is | .oneOf is | .allOf is | .notF is => is.flatMap classTbl
+  | .mapOf k v _ => classTbl k ++ classTbl v
+  | _ => []
+
 def stepsJson (c : ClassOpts) (fields : List (String × FieldDecl)) (O : Oracles) :
     Inst → List Op → List Json
   | _, [] => []
@@ -81,11 +101,13 @@ def run (j : Json) : Except String Json := do
     let ops ← match optField j "ops" with
       | none => pure []
       | some x => (← x.getArr?).toList.mapM Mutate.opOfJson
+    let sDeep ← setOrderOfJson j "setOrdDeep"
+    let sPickle ← setOrderOfJson j "setOrdPickle"
     let copies : List (String × Json) := match insts with
       | [] => []
       | x :: _ =>
-        let d := deepcopyI c x
-        let p := pickleI names x
+        let d := deepcopyI c sDeep x
+        let p := pickleI (classTbl cls) sPickle x
         [("copy", copyJson R defaults x (copyI x)),
          ("deepcopy", copyJson R defaults x d),
          ("pickle", copyJson R defaults x p),
